@@ -100,16 +100,18 @@ def find_store(fnode, key=None, name=None, subscript_only=False):
                         found = (st, st.value)
                     if name is not None and isinstance(t, ast.Name) and t.id == name:
                         found = (st, st.value)
-                if key is not None and not subscript_only:
-                    for d in ast.walk(st.value):
-                        if isinstance(d, ast.Dict):
-                            for k_, v_ in zip(d.keys, d.values):
-                                if isinstance(k_, ast.Constant) and k_.value == key:
-                                    found = (st, v_)
-                        if isinstance(d, ast.Call):
-                            for kw in d.keywords:
-                                if kw.arg == key and isinstance(d.func, (ast.Name, ast.Attribute)) and (getattr(d.func, "id", "") in ("dict",)):
-                                    found = (st, kw.value)
+            if key is not None and not subscript_only and isinstance(st, (ast.Assign, ast.AnnAssign, ast.Expr, ast.Return)) and getattr(st, "value", None) is not None:
+                for d in ast.walk(st.value):
+                    if isinstance(d, ast.Dict):
+                        for k_, v_ in zip(d.keys, d.values):
+                            if isinstance(k_, ast.Constant) and k_.value == key:
+                                found = (st, v_)
+                    if isinstance(d, ast.Call):
+                        # dict(key=...) or a record constructor called with keywords (IntegralIR(enabled_coefficients=...))
+                        fname = d.func.id if isinstance(d.func, ast.Name) else (d.func.attr if isinstance(d.func, ast.Attribute) else "")
+                        for kw in d.keywords:
+                            if kw.arg == key and (fname == "dict" or fname[:1].isupper()):
+                                found = (st, kw.value)
             for b in _blocks(st):
                 visit(b)
     visit(fnode.body)
@@ -183,6 +185,9 @@ def value_of(it, func, env, key=None, name=None, final=False):
     if final and key is not None:
         found = find_store(func.node, key=key, subscript_only=True)
         if found is None:
+            if find_store(func.node, key=key) is not None:
+                # stored once, as a dict-literal entry / constructor keyword: its value at that statement is final
+                return value_of(it, func, env, key=key)
             raise AnalysisError(f"sliceint: no subscript store of {key!r} in {func.key}")
         stmt, _v = found
         base = stmt.targets[0] if isinstance(stmt, ast.Assign) else stmt.target
